@@ -48,8 +48,13 @@ def run(chk: core.Check, replay=None) -> None:
     for i in range(n):
         p = shots.gen_shot(rng)
         cfg = {"max_calc_step_size_feet": rng.choice([1.0, 2.0, 4.0])} if not (thorough and rng.random() < 0.2) else None
-        R = rng.choice([600.0, 1500.0, 3000.0])
-        s = R / rng.choice([6, 10, 12])
+        ms = (cfg or {}).get("max_calc_step_size_feet", 0.5)
+        if i % 3 == 2:
+            R = 60.0 * ms          # short range, record steps down to below the maximum integration step
+            s = 6.0 * ms
+        else:
+            R = rng.choice([600.0, 1500.0, 3000.0])
+            s = R / rng.choice([6, 10, 12])
         base = {"shot": p, "cfg": cfg, "range_ft": R, "unit": "Foot", "step_ft": s, "extra": False}
         if rng.random() < 0.5:
             base["zero_yd"] = rng.choice([100, 200])
@@ -65,6 +70,9 @@ def run(chk: core.Check, replay=None) -> None:
             "extra_finer_timed": {"extra": True, "step_ft": s / 3, "time_step": 0.1},
             "other_unit": {"unit": "Meter", "step_unit": "Yard"},
         }
+        if i % 3 == 2:
+            variants.update({"step_eq_max_step": {"step_ft": ms}, "step_1p5_max_step": {"step_ft": 1.5 * ms},
+                             "step_below_max_step": {"step_ft": 0.75 * ms}})
         for vname, over in variants.items():
             sc2 = copy.deepcopy(base)
             sc2.update(over)
@@ -115,7 +123,7 @@ def run(chk: core.Check, replay=None) -> None:
     loopsuite.validate(chk, "C11", outs, pairs)
     chk.sample({"base": outs[0]["sc"], "variant": outs[1]["sc"], "pair_lines": pairs[:2]})
     chk.sample({"tlc_behaviour": {k: v for k, v in behs[0].items() if k != "consts"}})
-    chk.require_strata(["variant_shorter", "variant_coarser", "variant_finer", "variant_extra", "variant_timed", "extra_added_event_rows"])
+    chk.require_strata(["variant_step_below_max_step", "variant_step_eq_max_step", "variant_shorter", "variant_coarser", "variant_finer", "variant_extra", "variant_timed", "extra_added_event_rows"])
     chk.exhaustive = False
     chk.rule.append("design: Integrator.tla twin recorders (rows lie on the polyline of iteration points that no recorder influences); "
                     "spec->code: row emission rule of TLC behaviours on the real filter; code->spec: seeded real shots, each fired with "
